@@ -41,7 +41,8 @@ def rule_triple(ctx: Ctx) -> RuleResult:
     h = loops[0]
     names = [e.id for e in h.ast.target.elts if isinstance(e, ast.Name)]
     body = cfg.reachable_from_edges([(h, "T")], avoid=[h])
-    ins = [n for n in cfg.nodes if isinstance(n.ast, ast.Assign) and isinstance(n.ast.targets[0], ast.Tuple) and len(n.ast.targets[0].elts) == 3 and ast.unparse(n.ast.value) == "ins"]
+    # the insert triple, by role: a 3-name unpacking of a plain local (not of row[...]) outside the per-cell loop
+    ins = [n for n in cfg.nodes if n not in body and isinstance(n.ast, ast.Assign) and isinstance(n.ast.targets[0], ast.Tuple) and len(n.ast.targets[0].elts) == 3 and isinstance(n.ast.value, ast.Name) and n in cfg.reachable([h])]
     rr.inst("cell loop", True, {"loop": norm(h.stmt, 50), "cell_variables": names, "insert_triple": [norm(n.stmt, 60) for n in ins]})
     if not ins:
         rr.add(finding("LEAK", fi, fi.node, "the insert block no longer unpacks its own (attr, charset, text) triple from `ins`", construct="no insert triple"))
@@ -67,7 +68,7 @@ def rule_triple(ctx: Ctx) -> RuleResult:
             uses["attr"] = True
         if n.kind == "test" and cs in t:
             uses["cs"] = True
-        if f"{run}.decode(" in t and "output.append" in t:
+        if f"{run}.decode(" in t and ".append(" in t:
             uses["text"] = True
     rr.inst("triple used together", True, uses)
     for k, v in uses.items():
@@ -131,7 +132,11 @@ def rule_cursor(ctx: Ctx) -> RuleResult:
     rr = RuleResult("PASS", "C04.2", "HIDE_CURSOR is the first output of every draw; SHOW_CURSOR is emitted only under `canvas.cursor is not None`", floor=2)
     fi = p.func(f"{RAW}.Screen.draw_screen")
     cfg = cfg_of(fi)
-    init = [n for n in cfg.nodes if isinstance(n.ast, (ast.Assign, ast.AnnAssign)) and isinstance(getattr(n.ast, "value", None), ast.List) and any(isinstance(t, ast.Name) and t.id == "output" for t in (n.ast.targets if isinstance(n.ast, ast.Assign) else [n.ast.target]))]
+    # the output list, by role: the local iterated by the loop that calls self.write(...)
+    outnames = {h.ast.iter.id for h in cfg.nodes if h.kind == "for" and isinstance(h.ast.iter, ast.Name) and any(isinstance(x, ast.Call) and ast.unparse(x.func) == "self.write" for x in ast.walk(h.ast))}
+    if not outnames:
+        raise AnalysisError("draw_screen: the loop writing the collected output (self.write) was not found")
+    init = [n for n in cfg.nodes if isinstance(n.ast, (ast.Assign, ast.AnnAssign)) and isinstance(getattr(n.ast, "value", None), ast.List) and any(isinstance(t, ast.Name) and t.id in outnames for t in (n.ast.targets if isinstance(n.ast, ast.Assign) else [n.ast.target]))]
     rr.inst("first output", True, {"output_initialisation": [norm(n.stmt, 70) for n in init]})
     if len(init) != 1 or not init[0].ast.value.elts or ast.unparse(init[0].ast.value.elts[0]) != "escape.HIDE_CURSOR":
         rr.add(finding("PASS", fi, init[0].stmt if init else fi.node, "the output of a draw does not start with escape.HIDE_CURSOR: the cursor flickers over the cells being repainted / stays visible when the canvas has none", construct="HIDE_CURSOR not first"))
@@ -199,12 +204,27 @@ def rule_charset_first(ctx: Ctx) -> RuleResult:
     fi = p.func(f"{RAW}.Screen.draw_screen")
     cfg = cfg_of(fi)
     du = DefUse(fi)
-    tests = [t for t in cfg.nodes if t.kind == "test" and any(isinstance(c, ast.Compare) and len(c.ops) == 1 and isinstance(c.ops[0], ast.NotEq) and {ast.unparse(c.left), ast.unparse(c.comparators[0])} == {"last_charset_flag", "cs"} for c in ast.walk(t.ast))]
-    if not tests:
-        raise AnalysisError("draw_screen: the `last_charset_flag != cs` test was not found")
+    # by role: `cs` is the charset element (2nd) of the per-cell loop target; the state variable is whatever local
+    # is compared != with it
+    loops = [h for h in cfg.nodes if h.kind == "for" and isinstance(h.ast.target, ast.Tuple) and len(h.ast.target.elts) == 3 and isinstance(h.ast.iter, ast.Name)]
+    csnames = {h.ast.target.elts[1].id for h in loops if isinstance(h.ast.target.elts[1], ast.Name)}
+    tests = []
+    state = None
+    for t in cfg.nodes:
+        if t.kind != "test":
+            continue
+        for c in ast.walk(t.ast):
+            if isinstance(c, ast.Compare) and len(c.ops) == 1 and isinstance(c.ops[0], ast.NotEq) and isinstance(c.left, ast.Name) and isinstance(c.comparators[0], ast.Name):
+                pair = {c.left.id, c.comparators[0].id}
+                if pair & csnames and len(pair) == 2:
+                    tests.append(t)
+                    state = (pair - csnames).pop() if (pair - csnames) else None
+    if not tests or state is None:
+        raise AnalysisError("draw_screen: the test comparing the remembered charset with the cell's charset was not found")
+    cs = next(iter(csnames))
     for t in tests:
-        init = [v for dn, v, how in du.defs.get("last_charset_flag", []) if isinstance(v, ast.Constant)]
-        legit_none = any(isinstance(c, ast.Compare) and ast.unparse(c.left) == "cs" and isinstance(c.ops[0], (ast.Is, ast.In)) and "None" in ast.unparse(c.comparators[0]) for c in ast.walk(fi.node))
+        init = [v for dn, v, how in du.defs.get(state, []) if isinstance(v, ast.Constant)]
+        legit_none = any(isinstance(c, ast.Compare) and isinstance(c.left, ast.Name) and c.left.id in csnames and isinstance(c.ops[0], (ast.Is, ast.In)) and "None" in ast.unparse(c.comparators[0]) for c in ast.walk(fi.node))
         rr.inst(norm(t.stmt, 60), True, {"test": norm(t.stmt, 80), "sentinel_initialised_to": [repr(v.value) for v in init], "None_is_a_legitimate_charset": legit_none})
         if not (init and init[0].value is None and legit_none):
             continue
